@@ -239,6 +239,8 @@ var lexTokens = []string{
 	"-- atlas:delimiter \\n\\n\n", "-- atlas:nolint\n", "-- atlas:delimiter\n", "\n\n",
 	// psql meta-command lines as pg_dump writes them
 	"\\connect db\n", "\\restrict k\n\n", "\\unrestrict k\n", "\\.\n",
+	// MySQL version comments as mysqldump writes them
+	"/*!40101 SET NAMES utf8 */;", "/*!40101 SET @a=1 */;\n", "/*!50003 CREATE\n TRIGGER t */;\n", "/*!40000 ALTER TABLE t DISABLE KEYS */;\nINSERT INTO t VALUES (1);\n", "/*! x */",
 }
 
 func genLex(r *hx.Rand) string {
